@@ -113,10 +113,27 @@ fn delivery_oracle(lock: &Lock, sc: &Scenario, quiescent: bool) -> Vec<(String, 
                     continue;
                 }
                 let got = per.get(tag).map(|v| v.len() as u64).unwrap_or(0);
-                if got != *n {
+                // C04: "every message sent to a LIVE process is delivered exactly once".  A message
+                // that reached its receiver after the receiver had terminated is not one of those:
+                // with the variant `release-dead` the runtime drops it (at HEAD it is left in the
+                // dead process's mailbox and counted above).  The same variant releases, with a
+                // finished process, the messages it was given while live but did not read; the
+                // final state no longer shows them.  Both are observed per worker step
+                // (`Lock::dead_deliveries`, `Lock::released_unread`), so the count stays exact:
+                // every send is in the receiver's history, or was in its mailbox unread when it
+                // finished, or arrived when the receiver was no longer live.
+                let (dead, unread) = if msys::RELEASE_DEAD.load(std::sync::atomic::Ordering::Relaxed) {
+                    (
+                        lock.dead_deliveries.iter().filter(|(p, t, _)| p == pid && t == tag).count() as u64,
+                        lock.released_unread.iter().filter(|(p, t, _)| p == pid && t == tag).count() as u64,
+                    )
+                } else {
+                    (0, 0)
+                };
+                if got + dead + unread != *n {
                     out.push((
                         "oracle=fifo-exactly-once".to_string(),
-                        format!("at quiescence receiver pid {pid} (script {r}) has {got} messages with tag {tag} from finished sender script {s}, which sent {n}"),
+                        format!("at quiescence receiver pid {pid} (script {r}) has {got} messages with tag {tag} from finished sender script {s}, which sent {n}{}", if dead + unread > 0 { format!(" ({unread} more were in its mailbox unread when it finished, {dead} arrived after it had terminated)") } else { String::new() }),
                     ));
                 }
             }
